@@ -25,7 +25,17 @@ class _Rewriter(ast.NodeTransformer):
         return node
 
 
-KERNELS = ['hl7apy.utils', 'hl7apy.base_datatypes', 'hl7apy.v2_7.base_datatypes', 'hl7apy.factories']
+def _version_kernels():
+    """every hl7apy.v2_*.base_datatypes module of the working tree (v2_1, v2_6, v2_7 at the time of writing)"""
+    import glob
+    import os
+    import hl7apy
+    root = os.path.dirname(hl7apy.__file__)
+    return sorted('hl7apy.%s.base_datatypes' % os.path.basename(os.path.dirname(p))
+                  for p in glob.glob(os.path.join(root, 'v2_*', 'base_datatypes.py')))
+
+
+KERNELS = ['hl7apy.utils', 'hl7apy.base_datatypes'] + _version_kernels() + ['hl7apy.factories']
 _loaded = {}
 
 
@@ -62,7 +72,7 @@ def load(extra_globals=None):
         for k, v in (extra_globals or {}).get(name, {}).items():
             g[k] = v
         _loaded[name] = mod
-        if name == 'hl7apy.v2_7.base_datatypes':
+        if name == [k for k in KERNELS if k.endswith('.base_datatypes')][-1]:
             # the version packages captured the old classes at import time: rebuild their BASE_DATATYPES
             for v, pkg in sorted(hl7apy.SUPPORTED_LIBRARIES.items()):
                 if pkg in sys.modules:
